@@ -103,6 +103,7 @@ func init() {
 			{"stor-routing", "chooseMap routes exactly the contract-storage prefixes to stor; no keyed access to mem/stor bypasses it; GetStorageChanges returns stor", ruleStorRouting},
 			{"backend-tx", "every BoltDB/LevelDB mutation happens inside a transaction; a change set is one transaction committed on the success path", ruleBackendTx},
 			{"seek-prefix-owned", "a seek range built from the DAO's reusable key buffer is copied before being handed to a seek whose callback may re-enter the DAO", ruleSeekPrefixOwned},
+			{"seek-stop", "once the consumer of a merged range scan has returned false it is never called again: the merge callback records the stop before returning and the tail loop over in-memory items is gated by it", ruleSeekStop},
 			{"seek-orientation", "in every store implementation the key filter keeps exactly the keys at or past the start in scan direction, results are sorted by the comparator of that direction, disk iterators step with Next/Prev accordingly, and the backend range is [prefix+start, end of prefix) forward and [prefix, end of prefix+start) backward", func(c *Ctx) { ruleSeekOrientation(c, map[string]bool{"pkg/core/storage": true}) }},
 		},
 		NotCovered: "the merge algorithm of performSeek, ordering/duplicates across layers, search depth, and the treatment of keys that strictly extend the start point in a backward scan (memory layers drop them, disk ranges keep them: value-level, see DESIGN.md §6)",
@@ -120,6 +121,7 @@ func init() {
 			{"cache-key-shape", "all keyed accesses of one native cache map use keys of the same shape (none mixes whole prefixed storage keys with prefix-stripped ones)", ruleCacheKeyShape},
 			{"derived-invalidation", "every state-changing writer of a cache field that NEO.computeCommitteeMembers reads marks the NEO cache dirty (votesChanged), since the recomputation is skipped otherwise", ruleDerivedInvalidation},
 			{"cache-copy", "Copy() of every native cache gives the new DAO layer its own copy of every map/slice/pointer field, except the tabled replace-only fields, which are never modified in place anywhere", ruleCacheCopy},
+			{"mpt-reader", "Trie methods read node records only through the mode-aware getFromStore: with state garbage collection (a node-local option) a raw read returns records awaiting collection, so the state transition would depend on the option and on restarts", ruleMPTReader},
 		},
 		NotCovered: "equality of two replicas is never observed; arithmetic of rewards, epoch boundaries, what InitializeCache computes, flush timing, backend differences, third-party nondeterminism",
 	})
@@ -130,6 +132,7 @@ func init() {
 			{"node-switch", "type switches dispatching over trie node kinds cover all five kinds or fail in their default arm", ruleNodeSwitch},
 			{"append-alias", "no append(node.field, ...) in package mpt whose result leaves the field (it would write into the spare capacity a node key shares with the path/batch array it was sliced from)", ruleAppendAlias},
 			{"mpt-reader", "Trie methods read node records only through the mode-aware getFromStore (reads after reload agree with content in every trie mode)", ruleMPTReader},
+			{"rc-writers", "node records reach the store only through the tabled count-folding writers, and the counter folded by Flush becomes the base of the next flush (a node still referenced is never deleted, so reads after reload agree with content)", ruleRCWriters},
 			{"seek-orientation", "ordered range searches over the trie (Trie.Find, TrieStore.Seek, Billet.traverse) skip a subtree exactly when it lies before the start in scan direction, and visit children in scan order with the node's own value first (forward) or last (backward)", func(c *Ctx) { ruleSeekOrientation(c, map[string]bool{"pkg/core/mpt": true}) }},
 		},
 		NotCovered: "history independence as such, batch/restructuring correctness, completeness of proofs; of ordered traversal only the direction/start truth tables and the visiting order are decided",
